@@ -37,8 +37,9 @@ PROPS = {
         assumptions=["B-splines (om.SplineComp) are external: 'equal control points give a constant' is examined by the oracle only"],
     ),
     "C17": dict(
-        components=["TotalLiftDrag", "SumAreas", "Equilibrium", "Breguet", "CenterOfGravity", "Reynolds", "MomentCoefficient", "Coeffs"],
-        assumptions=["Akima interpolation of the atmosphere table is scipy's (continuity checked numerically only)"],
+        components=["TotalLiftDrag", "SumAreas", "Equilibrium", "Breguet", "CenterOfGravity", "Reynolds", "MomentCoefficient", "Coeffs", "AtmosComp"],
+        assumptions=["the Akima interpolation of the atmosphere table is modelled (transliterated from scipy) and compared with AtmosComp over the "
+                     "whole table; the table itself is passed to the model from the source text on every run"],
     ),
     "C18": dict(
         components=["ViscousDrag", "WaveDrag", "TotalDrag", "VLMGeometry"],
